@@ -47,14 +47,53 @@ func main() {
 		}
 		return strings.Join(tr, ";")
 	})
+	// t5s <cfg> <t0> <op>... : large tables; the state is dumped (with the invariant oracle and PrintTable) only at
+	// the "S" tokens and at the end, every other op contributes its output alone; the invariant oracle runs after every op
+	r.Register("t5s", func(a []string) string {
+		cfg := tables.ParseCfg(a[0])
+		t0, _ := strconv.ParseInt(a[1], 10, 64)
+		sm := tables.NewSim(cfg, t0)
+		defer sm.Close()
+		show := func(out string) string {
+			inv := sm.InvOracle()
+			if inv != "" {
+				r.Viol("c05-invariant-broken", inv, "t5s "+strings.Join(a[:2], " ")+" ("+strconv.Itoa(len(a)-2)+" ops)")
+			}
+			return out + "|" + sm.DumpTables() + "|pt=" + sm.PrintTable() + "|inv=" + map[bool]string{true: "1", false: "0"}[inv == ""]
+		}
+		var tr []string
+		for _, op := range a[2:] {
+			if op == "S" {
+				tr = append(tr, show("S"))
+				continue
+			}
+			out := sm.Apply(op)
+			sm.Drain()
+			if sm.Dead {
+				tr = append(tr, out)
+				break
+			}
+			tr = append(tr, out)
+		}
+		if !sm.Dead {
+			tr = append(tr, show("end"))
+		}
+		return strings.Join(tr, ";")
+	})
 	if r.Replayed() {
 		return
 	}
 
 	cfg := tables.StdCfg().Tok()
+	dcfgs := tables.DeadlineCfgs()
 	g := &tables.Gen{U: tables.StdUniverse(), Rng: rng}
 	nrun := 0
 	run := func(ops []string) {
+		cfg := cfg
+		if nrun%4 == 1 { // a quarter of all histories runs under other deadlines (orderings, equal, tiny, huge)
+			cfg = dcfgs[rng.Intn(len(dcfgs))].Tok()
+			r.Stat("cfg.non-default-deadlines", 1)
+		}
 		// two thirds of the histories carry their frames as RAW BYTES (a fifth of those frames damaged):
 		// the model then derives the frame summary itself from the bytes
 		nrun++
@@ -69,6 +108,35 @@ func main() {
 	nShort, nLong := 400, 500
 	if r.Thorough() {
 		nShort, nLong = 4000, 12000
+	}
+	// large tables: many addresses on one MAC (above the 32 / 64 / 128 marks), many MACs
+	for _, n := range []int{40, 70, 130} {
+		r.Do("t5s", append([]string{cfg, "0"}, g.ManyAddrsHistory(n, n == 70)...)...)
+		r.Stat("class.many-addresses-per-mac", 1)
+	}
+	r.Do("t5s", append([]string{cfg, "0"}, g.ManyMACsHistory(300, false)...)...)
+	r.Stat("class.many-macs", 1)
+	if r.Thorough() {
+		for i := 0; i < 10; i++ {
+			r.Do("t5s", append([]string{dcfgs[rng.Intn(len(dcfgs))].Tok(), "0"}, g.ManyAddrsHistory(35+rng.Intn(150), i%2 == 0)...)...)
+			r.Do("t5s", append([]string{cfg, "0"}, g.ManyMACsHistory(100+rng.Intn(300), i%2 == 0)...)...)
+		}
+	}
+	// the three deadlines: every accepted ordering, equal, tiny and huge values; purges straddling each cutoff for an
+	// address offline by ageing and by IPv4 supersession
+	nDl := 8
+	if r.Thorough() {
+		nDl = 150
+	}
+	for _, dc := range dcfgs {
+		for i := 0; i < nDl; i++ {
+			ops := g.DeadlineHistory(dc)
+			if i%3 == 2 {
+				ops = tables.RawOps(ops, rng, 0, func(k string) { r.Stat(k, 1) })
+			}
+			r.Do("t5", append([]string{dc.Tok(), "0"}, ops...)...)
+			r.Stat("class.deadlines", 1)
+		}
 	}
 	// short histories (also the kernel-replay sample)
 	for i := 0; i < nShort; i++ {
